@@ -56,6 +56,7 @@ type fnInfo struct {
 	intrinsic Intrinsic
 	name      string
 	isMangos  bool
+	isEnv     bool // environment stub (connection, transport) the library hands buffers to
 }
 
 var fnInfos sync.Map // *ssa.Function -> *fnInfo
@@ -87,8 +88,10 @@ func getFnInfo(fn *ssa.Function) *fnInfo {
 	fi.intrinsic = lookupIntrinsic(fn)
 	if fn.Pkg != nil {
 		fi.isMangos = isMangosPkg(fn.Pkg.Pkg.Path())
+		fi.isEnv = isEnvPkg(fn.Pkg.Pkg.Path())
 	} else if fn.Parent() != nil && fn.Parent().Pkg != nil {
 		fi.isMangos = isMangosPkg(fn.Parent().Pkg.Pkg.Path())
+		fi.isEnv = isEnvPkg(fn.Parent().Pkg.Pkg.Path())
 	}
 	v, _ := fnInfos.LoadOrStore(fn, fi)
 	return v.(*fnInfo)
